@@ -4,9 +4,11 @@
     steps, one per type former; the induction itself is closed on every run by evaluating, in Coq, the
     inhabitation of every real document in the environment parsed from the real file (which is also
     compared, declaration by declaration, with Model/TsTypes.v, and checked closed and duplicate-free).
-    Partial: the global statement over all type graphs is not proved as one theorem. *)
+    The global statement is C03_documents_inhabit: under the agreement table [tsim_ok] (Sem/TsSim.v, a
+    decidable premise computed on every run for every documented type from the parsed TypeScript file
+    and the wire shapes), every conforming document of any size and depth inhabits its type. *)
 From Coq Require Import List String Bool.
-From GM Require Import Sem.GoJson Sem.TsSem Proofs.C03.
+From GM Require Import Sem.GoJson Sem.TsSem Sem.PgSim Sem.TsSim Proofs.C03 Proofs.C03g.
 Import ListNotations.
 Local Open Scope string_scope.
 
@@ -61,6 +63,18 @@ Theorem C03_struct_properties : forall genv tenv f f' id name fields tfields j,
   conformsb genv (S f) (ShRef id) j = true -> inhabitsb tenv (S f') (TRef name) j = true.
 Proof. exact step_struct. Qed.
 
+(** the global statement: any document of the Go wire shape inhabits the TypeScript type *)
+Theorem C03_documents_inhabit : forall tenv jenv tb te sh j n,
+  tsim_ok tenv jenv tb = true -> tmemb tb te sh = true ->
+  conformsb jenv n sh j = true ->
+  exists m, forall m', m <= m' -> inhabitsb tenv m' te j = true.
+Proof. exact documents_inhabit. Qed.
+
+(** the premise is met by a concrete environment *)
+Theorem C03_premises_satisfiable : tsim_ok ex_tenv ex_jenv3 ex_ttable = true /\ tmemb ex_ttable (TRef "Root") (ShRef "Root") = true
+  /\ conformsb ex_jenv3 8 (ShRef "Root") ex_doc3 = true /\ inhabitsb ex_tenv 12 (TRef "Root") ex_doc3 = true.
+Proof. exact ex_premises3. Qed.
+
 Print Assumptions C03_basic_kinds.
 Print Assumptions C03_nullable_slice.
 Print Assumptions C03_nullable_map.
@@ -68,3 +82,5 @@ Print Assumptions C03_fixed_array_is_tuple.
 Print Assumptions C03_enum_literals.
 Print Assumptions C03_union_shapes.
 Print Assumptions C03_struct_properties.
+Print Assumptions C03_documents_inhabit.
+Print Assumptions C03_premises_satisfiable.
